@@ -355,11 +355,96 @@ def _ob_feature(row: int, pa: int, pb: int, en: int, excl: bool, nf: int, si: in
     return dv.valid and s.start == r[0] and s.stop == r[1] + 1
 
 
+# ---------------------------------------------------------------------------
+# 5. IEEE-754: a tag placed exactly on sample i of a dimension with a non-dyadic
+#    sampling interval selects exactly sample i (engine E3, vf.smt_fp): the
+#    region [p, p] is resolved by index_of(p, GreaterOrEqual) and
+#    index_of(p, LessOrEqual), both must be i.       PART = (interval, offset, N)
+# ---------------------------------------------------------------------------
+def _ob_tag_on_sample_float(i: int) -> bool:
+    """
+    pre: 0 <= i
+    post: __return__
+    """
+    import nixio
+    si, off, N = PART
+    assume(i <= N)
+    with untraced():
+        nixfake.begin()
+        f = nixio.File(PATH, "w")
+        blk = f.create_block("b", "t")
+    ref = blk.create_data_array("ref", "t", dtype=nixio.DataType.Double, shape=(N + 1,))
+    dim = ref.append_sampled_dimension(si, offset=off if off else None)
+    tag = blk.create_tag("tg", "t", [dim.position_at(i)])
+    tag.references.append(ref)
+    dv = tag.tagged_data(0)
+    return dv.valid and dv._slices[0].start == i and dv._slices[0].stop == i + 1
+
+
+def _custom_tag_on_sample():
+    import os
+    from vf import smt_fp
+    si, off, N = PART
+    repo = os.environ.get("VERIF_REPO", "/repo")
+    out = {"queries": 0, "solver_time_s": 0.0, "status": "holds",
+           "bounds": ["0 <= i <= %d" % N, "sampling_interval == %r, offset == %r (IEEE doubles)" % (si, off)],
+           "asserts": ["index_of(position_at(i), GreaterOrEqual) == i == index_of(position_at(i), LessOrEqual) "
+                       "in IEEE-754 binary64, i.e. the tag selects exactly sample i"]}
+    for mode in ("GreaterOrEqual", "LessOrEqual"):
+        r = smt_fp.decide(repo, si, off, mode, N)
+        out["queries"] += r.get("queries", 0)
+        out["solver_time_s"] += r.get("solver_time_s", 0.0)
+        out[mode] = r.get("z3") or r.get("reason")
+        if r.get("status") == "violated":
+            out["status"] = "violated"
+            out["counterexample"] = {"i": r["i"]}
+            return out
+        if r.get("status") != "holds":
+            out["status"] = "inconclusive"
+            out["reason"] = r.get("reason")
+            return out
+    return out
+
+
+def _replay_tag_on_sample(args):
+    """real stack, real floats: build the tag on a real file"""
+    import os
+    import shutil
+    import tempfile
+    global PATH
+    tmp = tempfile.mkdtemp(prefix="vf_c08_")
+    fakeh5.uninstall()
+    import numpy
+    import nixio.dimensions as D
+    import nixio.tag as T
+    shims = (D.np, T.np)
+    D.np = numpy
+    T.np = numpy
+    old = PATH
+    PATH = os.path.join(tmp, "t.nix")
+    try:
+        try:
+            ok = _ob_tag_on_sample_float(**args)
+        except Exception as e:  # noqa
+            import traceback
+            return True, {"raised_on_real_stack": traceback.format_exc()[-500:]}
+        return (not ok), {"holds_on_real_stack": ok, "PART": list(PART)}
+    finally:
+        PATH = old
+        D.np, T.np = shims
+        fakeh5.install()
+        shutil.rmtree(tmp, ignore_errors=True)
+
+
 def validate():
     out = {"slice_model": models.validate_slice_model(), "q_npshim": models.validate_npshim_and_q(),
            "fakeh5_vs_h5py": fakeh5.validate_against_h5py()}
     from nixio.util import units
     assert units.scaling("cm", "mm") == 10.0 and units.scaling("ms", "ms") == 1.0
+    import os
+    from vf import smt_fp
+    out["fp_encoding_vs_real_index_of"] = smt_fp.validate(os.environ.get("VERIF_REPO", "/repo"),
+                                                          [(0.1, 0.0), (0.3, 0.7)])
     return out
 
 
@@ -442,6 +527,13 @@ OBLIGATIONS = [
        partition_by_tier={"quick": _MT_QUICK, "thorough": _MT_THOROUGH},
        functions=[_M + "tagged_data", _M + "_calc_data_slices_mtag", _T + "BaseTag._calc_data_slices"],
        replay=lambda a: _real("_ob_mtag", a)),
+    Ob("tag_on_sample_ieee754", _ob_tag_on_sample_float, timeout=1200, custom=_custom_tag_on_sample, twin=False,
+       partition_by_tier={"quick": [(0.1, 0.0, 4096), (0.001, 0.0, 4096), (0.3, 0.7, 4096)],
+                          "thorough": [(si, off, 65536) for si, off in ((0.1, 0.0), (0.001, 0.0), (0.3, 0.7),
+                                                                       (0.1, -1.3), (2.5e-05, 0.0))]},
+       functions=["nixio.dimensions.SampledDimension.position_at", "nixio.dimensions.SampledDimension.index_of"],
+       replay=_replay_tag_on_sample,
+       outside="other interval/offset doubles; positions that are not exactly on a sample; extents"),
     Ob("feature_data", _ob_feature, timeout=900,
        partition_by_tier={"quick": _F_QUICK, "thorough": _F_THOROUGH},
        functions=[_T + "Tag.feature_data", _M + "feature_data"],
